@@ -157,6 +157,15 @@ class EndpointMethodGenerator:
         writer.write_line(f'url = f"{{self.base_url}}{formatted_path}"')
         writer.write_line("")
 
+        # Query, header and cookie parameters are the same whichever content type is sent
+        has_query, has_headers, has_cookies = self.url_args_generator.write_param_dicts(
+            writer, op, ordered_params, context
+        )
+        params_arg = "params=params," if has_query else "params=None,"
+        headers_arg = "headers=headers" if has_headers else "headers=None"
+        if has_cookies:
+            headers_arg += ","
+
         # Generate runtime dispatch logic
         writer.write_line("# Runtime dispatch based on content type")
 
@@ -180,9 +189,11 @@ class EndpointMethodGenerator:
                 writer.write_line("response = await self._transport.request(")
                 writer.indent()
                 writer.write_line(f'"{op.method.value.upper()}", url,')
-                writer.write_line("params=None,")
+                writer.write_line(params_arg)
                 writer.write_line("json=json_body,")
-                writer.write_line("headers=None")
+                writer.write_line(headers_arg)
+                if has_cookies:
+                    writer.write_line("cookies=cookies")
                 writer.dedent()
                 writer.write_line(")")
             elif content_type == "multipart/form-data":
@@ -190,9 +201,11 @@ class EndpointMethodGenerator:
                 writer.write_line("response = await self._transport.request(")
                 writer.indent()
                 writer.write_line(f'"{op.method.value.upper()}", url,')
-                writer.write_line("params=None,")
+                writer.write_line(params_arg)
                 writer.write_line(f"files={param_info['name']},")
-                writer.write_line("headers=None")
+                writer.write_line(headers_arg)
+                if has_cookies:
+                    writer.write_line("cookies=cookies")
                 writer.dedent()
                 writer.write_line(")")
             else:
@@ -200,9 +213,11 @@ class EndpointMethodGenerator:
                 writer.write_line("response = await self._transport.request(")
                 writer.indent()
                 writer.write_line(f'"{op.method.value.upper()}", url,')
-                writer.write_line("params=None,")
+                writer.write_line(params_arg)
                 writer.write_line("data=data,")
-                writer.write_line("headers=None")
+                writer.write_line(headers_arg)
+                if has_cookies:
+                    writer.write_line("cookies=cookies")
                 writer.dedent()
                 writer.write_line(")")
 
